@@ -41,6 +41,7 @@ pub fn run(args: &vpc::Args) -> ! {
 // child
 // ------------------------------------------------------------------------------------------------
 fn child(args: &vpc::Args) -> ! {
+    infra::install_panic_hook();
     let e = &args.extra;
     let space = Space::from_name(arg(e, "--space").unwrap_or("")).unwrap_or_else(|| vpc::machinery_failure("child: bad --space"));
     let lo: u64 = arg(e, "--lo").and_then(|s| s.parse().ok()).unwrap_or(0);
